@@ -319,6 +319,19 @@ pub trait Scenario {
     fn gen_op(&mut self, rng: &mut Rng, step: usize) -> String;
     /// Execute one op line against the real code; returns the `> …` and `obs …` lines.
     fn apply(&mut self, op: &str) -> Vec<String>;
+    /// Small-scope enumeration (`harness enum`): variant `v` of a tiny world — the op lines that set it up and
+    /// the alphabet of op lines of which *every* sequence up to the requested depth is run.  Called right after
+    /// `start`, so the lines may name the pool.  `None` = no such variant (variants are numbered 0, 1, … without gaps).
+    fn small_scope(&mut self, _variant: u64) -> Option<SmallScope> {
+        None
+    }
+}
+
+/// See `Scenario::small_scope`.  Alphabet lines must not depend on the state (they are fixed strings); a few actors,
+/// amounts around 0/1/2, self-targets, the current and the next block.
+pub struct SmallScope {
+    pub prefix: Vec<String>,
+    pub alphabet: Vec<String>,
 }
 
 /// Run `f`, mapping a panic to `None`.
